@@ -747,6 +747,11 @@ def make_daemon_fn(op: Operator, hs: dict[str, Any]) -> Any:
         finally:
             watcher.cancel()
             c.stop_seen = bool(stopped)
+            if c.extra is not None and bool(stopped) and 'flag_at' not in c.extra:
+                # the flag was raised within this very instant: the observing sub-task has not had its turn yet
+                # (had virtual time passed since, it would have run)
+                c.extra['flag_at'] = sim.now
+                c.extra['reason_at_flag'] = str(stopped.reason)
             if c.extra is not None:
                 c.extra['reason_at_exit'] = str(stopped.reason)
             _end_call(op, c, outcome)
